@@ -36,6 +36,9 @@ TEMPLATES = [
     # VM
     "{v} * {v}", "{c}{v}{e} * {c}{v}{e}", "{v}{e} * {v}{e}", "{v} * ({v} * {w})", "{c}{v}{e} * ({c}{v}{e} * {w})", "({k}{w}{e} * {v}{e}) * {k}{v}{e}", "{v} * {c}{v}",
     "{v}{e} * {w}{e}", "-{v} * {v}", "-{v}^2 * {v}",
+    # like terms across a subtraction / quotient (outside every rule's pattern today)
+    "{c}{v} - ({c}{v} + {t})", "({t} + {c}{v}) - ({c}{v} + {t})", "{c}{v} - (({c}{v} + {t}) + {t})", "{c}{v}{e} - {c}{v}{e}", "({k} + {v}) - {v}",
+    "{v}{e} / {v}{e}", "{c}{v} / ({c}{v} * {w})", "{k} - ({k} - {v})", "{k} / ({k} / {v})", "{t} - ({t} - {t})", "({t} - {t}) - {t}", "({t} / {t}) / {t}",
     # CS / AG
     "{t} + {t}", "{t} * {t}", "{t} + {t} + {t}", "{t} * {t} * {t}", "({t} + {t}) + {t}", "{t} + ({t} + {t})", "({t} * {t}) * {t}", "{k}{v} * {w}", "{k}{v}{e} * {w}",
     "{t} + {t} + {t} + {t}", "({t} + {t}) + ({t} + {t})", "{t} - {t} + {t}", "{t} / {t} * {t}",
@@ -103,9 +106,23 @@ class Filler:
         return "".join(out)
 
 
+def near_miss(rng, tpl):
+    """the same arm template with one operator replaced by its non-commutative sibling
+    (+ -> -, * -> /): shapes just outside a rule's pattern, where a widened
+    applicability test would start to fire"""
+    idx = [i for i, ch in enumerate(tpl) if ch in "+*" and i > 0 and tpl[i - 1] == " "]
+    if not idx:
+        return tpl
+    i = rng.choice(idx)
+    return tpl[:i] + ("-" if tpl[i] == "+" else "/") + tpl[i + 1:]
+
+
 def template_expr(rng):
     f = Filler(rng)
-    s = f.fill(rng.choice(TEMPLATES))
+    tpl = rng.choice(TEMPLATES)
+    if rng.random() < 0.2:
+        tpl = near_miss(rng, tpl)
+    s = f.fill(tpl)
     ctx = rng.choice(CONTEXTS)
     if ctx.count("{}") == 2:
         return ctx.format(s, f.fill(rng.choice(TEMPLATES)))
